@@ -9,6 +9,7 @@ echo "|---|---|---|---|---|---|" >> $OUT.tmp
 for d in seeded/*/; do
   n=$(basename $d)
   [ -f $d/patch.diff ] || continue
+  if [ -n "$SEEDS" ]; then case " $SEEDS " in *" $n "*) ;; *) continue;; esac; fi
   p=$(python3 -c "import json;print(json.load(open('$d/meta.json'))['breaks_property'])")
   props=$p
   [ "$1" = all ] && props="C01 C02 C03 C04 C05 C06 C07 C08 C10 C11 C12 C13 C14 C15 C16 C17"
